@@ -321,6 +321,10 @@ impl Callbacks for Cb {
         };
         let mut out = String::new();
         let mut nbodies = 0usize;
+        // Phase 1: clone every unoptimised body *before* running any other query. Queries such as type_of on an
+        // async fn's opaque return type run borrowck, which steals mir_built of the defining body; taking all
+        // bodies first keeps the source-shaped MIR for (almost) every function.
+        let mut taken: Vec<(rustc_hir::def_id::LocalDefId, DefKind, Option<Body<'tcx>>)> = Vec::new();
         for def in tcx.hir_body_owners() {
             let kind = tcx.def_kind(def);
             if !matches!(kind, DefKind::Fn | DefKind::AssocFn | DefKind::Closure | DefKind::Const { .. } | DefKind::AssocConst { .. } | DefKind::Static { .. }) {
@@ -328,20 +332,30 @@ impl Callbacks for Cb {
             }
             let st = tcx.mir_built(def);
             if st.is_stolen() {
-                if matches!(kind, DefKind::Fn | DefKind::AssocFn | DefKind::Closure) {
-                    let body = tcx.optimized_mir(def.to_def_id());
-                    dump_body(tcx, def, kind, body, true, &mut out);
-                    nbodies += 1;
-                } else {
-                    let body = tcx.mir_for_ctfe(def.to_def_id());
-                    dump_body(tcx, def, kind, body, true, &mut out);
+                taken.push((def, kind, None));
+            } else {
+                let b: Body<'tcx> = st.borrow().clone();
+                taken.push((def, kind, Some(b)));
+            }
+        }
+        for (def, kind, b) in taken.iter() {
+            let (def, kind) = (*def, *kind);
+            match b {
+                Some(body) => {
+                    dump_body(tcx, def, kind, body, false, &mut out);
                     nbodies += 1;
                 }
-                continue;
+                None => {
+                    if matches!(kind, DefKind::Fn | DefKind::AssocFn | DefKind::Closure) {
+                        let body = tcx.optimized_mir(def.to_def_id());
+                        dump_body(tcx, def, kind, body, true, &mut out);
+                    } else {
+                        let body = tcx.mir_for_ctfe(def.to_def_id());
+                        dump_body(tcx, def, kind, body, true, &mut out);
+                    }
+                    nbodies += 1;
+                }
             }
-            let body = st.borrow();
-            dump_body(tcx, def, kind, &body, false, &mut out);
-            nbodies += 1;
         }
         // ADTs, statics, impls
         let items = tcx.hir_crate_items(());
